@@ -101,18 +101,23 @@ verif_harness! {
     }
 }
 
-/// Row (position p, byte v) of a fused table: the 16 octets at offset 4096 p + 16 v.
-fn row(t: &Table, p: usize, v: usize) -> [u8; 16] {
-    let mut o = [0u8; 16];
-    let mut k = 0;
-    while k < 16 {
-        o[k] = t.0[4096 * p + 16 * v + k];
-        k += 1;
-    }
-    o
+/// Address of row (position p, byte v) of a fused table: the 16 octets at offset 4096 p + 16 v.
+fn row_ptr(t: &Table, p: usize, v: usize) -> *const __m128i {
+    unsafe { t.0.as_ptr().add(4096 * p + 16 * v) as *const __m128i }
 }
 
-//@ harness name=kuz_leaf_rows prop=C07,C20 tier=quick bits=12 est=120 desc="L: every row of the fused tables: ENC_TABLE[p][v] == L(pi(v) at octet p, 0 elsewhere) and DEC_TABLE[p][v] == L^-1(pi^-1(v) at octet p, 0 elsewhere), position p and byte v symbolic (all 2 x 4096 rows)"
+// transform(b, &ENC_TABLE) == L(S(b)) as ONE query over 128 bits does not fit (sixteen 128-bit loads at symbolic
+// offsets from a constant 64 KiB array: CBMC needed > 24 GB; with symbolic table contents > 14 GB).  It is obtained
+// from three solver-checked lemmas:
+//   (rows)   kuz_leaf_rows:           _mm_load_si128(&T[4096 p + 16 v]) == L(pi(v) e_p)  for all rows of the real tables,
+//                                     read with the same load intrinsic that transform uses
+//   (flow)   kuz_leaf_transform_flow: transform(b, &T) == XOR_p load(&T[4096 p + 16 b_p]) for all b, both tables, with the
+//                                     load an uninterpreted function of the address (the sixteen loads happen at
+//                                     exactly the row addresses selected by the sixteen octets, and are XORed)
+//   (linear) kuz_oracle_linear:       L(s) == XOR_p L(s_p e_p)                           for all s (same for L^-1)
+// hence transform(b, &ENC_TABLE) = XOR_p L(pi(b_p) e_p) = L(S(b)), and likewise for DEC_TABLE with L^-1, pi^-1.
+
+//@ harness name=kuz_leaf_rows prop=C07,C20 tier=quick bits=12 est=200 desc="L: every row of the fused tables, read with _mm_load_si128 at &T[4096 p + 16 v]: ENC_TABLE row == L(pi(v) at octet p, 0 elsewhere) and DEC_TABLE row == L^-1(pi^-1(v) at octet p, 0 elsewhere), position p and byte v symbolic (all 2 x 4096 rows)"
 verif_harness! {
     name: kuz_leaf_rows,
     bytes: 2,
@@ -122,32 +127,69 @@ verif_harness! {
         let v = inp[1] as usize;
         let mut e = [0u8; 16];
         e[p] = r::PI[v];
-        vcheck!(row(&ENC_TABLE, p, v) == r::l(&e));
+        vcheck!(from_m(unsafe { _mm_load_si128(row_ptr(&ENC_TABLE, p, v)) }) == r::l(&e));
         let mut d = [0u8; 16];
         d[p] = r::PI_INV[v];
-        Some(row(&DEC_TABLE, p, v) == r::l_inv(&d))
+        Some(from_m(unsafe { _mm_load_si128(row_ptr(&DEC_TABLE, p, v)) }) == r::l_inv(&d))
     }
 }
 
-//@ harness name=kuz_leaf_transform_enc prop=C07,C20 tier=thorough bits=128 est=1000 desc="L: transform(b, &ENC_TABLE) == oracle L(S(b)) for all 2^128 b (sixteen symbolic-offset 128-bit loads from the 64 KiB table; alignment debug_assert included)"
+/// Natively: the 16 octets at the address.
+fn conc_load(a: usize) -> u128 {
+    unsafe { core::ptr::read_unaligned(a as *const u128) }
+}
+uf1!(uf_load, usize, u128, [B0], conc_load);
+pub unsafe fn stub_load(p: *const __m128i) -> __m128i {
+    core::mem::transmute::<u128, __m128i>(uf_load::call(p as usize))
+}
+
+//@ harness name=kuz_leaf_transform_flow prop=C07,C20 tier=quick bits=129 stub=1 est=100 desc="L: data flow of transform for all 2^128 b and both tables: transform(b, &T) == XOR over octet positions p of load(&T[4096 p + 16 b_p]), the 128-bit load being an uninterpreted function of its address; includes the alignment debug_assert and the in-bounds pointer arithmetic of all sixteen loads"
 verif_harness! {
-    name: kuz_leaf_transform_enc,
-    bytes: 16,
-    unwind: 20,
+    name: kuz_leaf_transform_flow,
+    bytes: 17,
+    unwind: 70,
+    stubs: [(core::arch::x86_64::_mm_load_si128, stub_load)],
     prop: |inp| {
         let b: [u8; 16] = take(inp, 0);
-        Some(from_m(unsafe { transform(to_m(&b), &ENC_TABLE) }) == r::ls(&b))
+        let tab: &Table = if inp[16] & 1 == 0 { &ENC_TABLE } else { &DEC_TABLE };
+        let got = from_m(unsafe { transform(to_m(&b), tab) });
+        let mut exp = 0u128;
+        let mut p = 0;
+        while p < 16 {
+            exp ^= uf_load::call(row_ptr(tab, p, b[p] as usize) as usize);
+            p += 1;
+        }
+        Some(got == from_m(unsafe { core::mem::transmute::<u128, __m128i>(exp) }))
     }
 }
 
-//@ harness name=kuz_leaf_transform_dec prop=C07,C20 tier=thorough bits=128 est=1000 desc="L: transform(b, &DEC_TABLE) == oracle L^-1(S^-1(b)) for all 2^128 b"
+fn xor_into(acc: &mut [u8; 16], v: &[u8; 16]) {
+    let mut k = 0;
+    while k < 16 {
+        acc[k] ^= v[k];
+        k += 1;
+    }
+}
+
+//@ harness name=kuz_oracle_linear prop=C07 tier=quick bits=128 est=300 desc="L (oracle only): L(s) == XOR_p L(s_p at octet p, 0 elsewhere) and the same for L^-1, for all 2^128 s: the octet-wise decomposition that fused tables rely on"
 verif_harness! {
-    name: kuz_leaf_transform_dec,
+    name: kuz_oracle_linear,
     bytes: 16,
     unwind: 20,
     prop: |inp| {
-        let b: [u8; 16] = take(inp, 0);
-        Some(from_m(unsafe { transform(to_m(&b), &DEC_TABLE) }) == r::l_inv(&r::s_inv(&b)))
+        let s: [u8; 16] = take(inp, 0);
+        let mut a = [0u8; 16];
+        let mut d = [0u8; 16];
+        let mut p = 0;
+        while p < 16 {
+            let mut e = [0u8; 16];
+            e[p] = s[p];
+            xor_into(&mut a, &r::l(&e));
+            xor_into(&mut d, &r::l_inv(&e));
+            p += 1;
+        }
+        vcheck!(a == r::l(&s));
+        Some(d == r::l_inv(&s))
     }
 }
 
@@ -157,7 +199,7 @@ verif_harness! {
 verif_harness! {
     name: kuz_wire_enc,
     bytes: 48,
-    unwind: 20,
+    unwind: 70,
     stubs: [(crate::sse2::backends::transform, stub_transform), (crate::sse2::backends::sub_bytes, stub_sub_bytes)],
     prop: |inp| {
         let key: [u8; 32] = take(inp, 0);
@@ -167,5 +209,69 @@ verif_harness! {
         c.encrypt_block(&mut b);
         let rk = r::key_schedule_with(&key, uls);
         Some(b.0 == r::encrypt_with(&rk, &blk, uls))
+    }
+}
+
+/// An encryption-only instance over ARBITRARY round keys K1..K10 (superset of the states KeyInit::new produces).
+fn enc_of_rk(inp: &[u8], off: usize) -> (KuznyechikEnc, [[u8; 16]; 10]) {
+    let mut rk = [[0u8; 16]; 10];
+    let mut m: RoundKeys = [to_m(&[0u8; 16]); 10];
+    let mut i = 0;
+    while i < 10 {
+        rk[i] = take(inp, off + 16 * i);
+        m[i] = to_m(&rk[i]);
+        i += 1;
+    }
+    (unsafe { core::mem::transmute::<RoundKeys, KuznyechikEnc>(m) }, rk)
+}
+
+//@ harness name=kuz_wire_keys prop=C07,C20 tier=quick bits=256 stub=1 est=200 desc="W: round keys of KuznyechikEnc::new(key) (expand_enc_keys) == oracle K1..K10 (Feistel key schedule with C_1..C_32), all 2^256 keys"
+verif_harness! {
+    name: kuz_wire_keys,
+    bytes: 32,
+    unwind: 70,
+    stubs: [(crate::sse2::backends::transform, stub_transform), (crate::sse2::backends::sub_bytes, stub_sub_bytes)],
+    prop: |inp| {
+        let key: [u8; 32] = take(inp, 0);
+        let c = KuznyechikEnc::new(&key.into());
+        let m = unsafe { core::mem::transmute::<KuznyechikEnc, RoundKeys>(c) };
+        let rk = r::key_schedule_with(&key, uls);
+        let mut i = 0;
+        while i < 10 {
+            vcheck!(from_m(m[i]) == rk[i]);
+            i += 1;
+        }
+        Some(true)
+    }
+}
+
+//@ harness name=kuz_wire_enc_rk prop=C07,C20 tier=quick bits=1408 stub=1 est=100 desc="W: KuznyechikEnc over arbitrary round keys: encrypt_block(b) == oracle E (9 LSX rounds + X), all round keys, all blocks"
+verif_harness! {
+    name: kuz_wire_enc_rk,
+    bytes: 160 + 16,
+    unwind: 70,
+    stubs: [(crate::sse2::backends::transform, stub_transform), (crate::sse2::backends::sub_bytes, stub_sub_bytes)],
+    prop: |inp| {
+        let (c, rk) = enc_of_rk(inp, 0);
+        let blk: [u8; 16] = take(inp, 160);
+        let mut b = blk.into();
+        c.encrypt_block(&mut b);
+        Some(b.0 == r::encrypt_with(&rk, &blk, uls))
+    }
+}
+
+//@ harness name=kuz_wire_dec_rk prop=C07,C20 tier=quick bits=1408 stub=1 est=600 desc="W: KuznyechikDec::from(enc) over arbitrary encryption round keys (real inv_enc_keys): decrypt_block(b) == oracle D = X[K1] S^-1 L^-1 X[K2] ... S^-1 L^-1 X[K10], all round keys, all blocks (the pre-transformed keys L^-1(K_i) need the linearity of L^-1, decided by the solver on the oracle's L^-1)"
+verif_harness! {
+    name: kuz_wire_dec_rk,
+    bytes: 160 + 16,
+    unwind: 70,
+    stubs: [(crate::sse2::backends::transform, stub_transform), (crate::sse2::backends::sub_bytes, stub_sub_bytes)],
+    prop: |inp| {
+        let (c, rk) = enc_of_rk(inp, 0);
+        let blk: [u8; 16] = take(inp, 160);
+        let d = KuznyechikDec::from(c);
+        let mut b = blk.into();
+        d.decrypt_block(&mut b);
+        Some(b.0 == r::decrypt_with(&rk, &blk, us_inv, r::l_inv))
     }
 }
